@@ -121,6 +121,25 @@ func ruleACCParse(c *Ctx) {
 			}
 			root := fa.X
 			f := fieldName(fa.X.Type(), fa.Field)
+			// X.op = blob: an opcode value built in a local of its own and copied in whole
+			if ld, isLd := st.Val.(*ssa.UnOp); isLd && ld.Op == token.MUL && f == "op" {
+				if src, isAl := ld.X.(*ssa.Alloc); isAl && lits[src] != nil {
+					if dst, isAl := root.(*ssa.Alloc); isAl {
+						if lits[dst] == nil {
+							lits[dst] = &lit{}
+							order = append(order, dst)
+						}
+						lits[dst].length = lits[src].length
+						for i, o := range order {
+							if o == ssa.Value(src) {
+								order = append(order[:i:i], order[i+1:]...)
+								break
+							}
+						}
+						continue
+					}
+				}
+			}
 			if pfa, isP := fa.X.(*ssa.FieldAddr); isP && fieldName(pfa.X.Type(), pfa.Field) == "op" {
 				root = pfa.X
 			}
